@@ -17,6 +17,9 @@ var c18Exprs = []string{
 	"[.[] | select(. == 1)]", "flatten", ".[0] = 5", "del(.[0])", ".[] |= . + 1", ". as $x | $x | sort", "sort_keys(.)", "any",
 	"all", "min", "max", "keys", ". + [9]", ". - [1]", "contains([1])", "has(0)", ".[0] // 7", "[..]", "map(select(. != 0))", "pick([0])",
 	".[] as $i ireduce (0; . + $i)", "{\"k\": .}", "explode(.)", "[.[] | tag]", "path", "document_index", "splitDoc", "join(\",\")", "omit([0])",
+	// the same attribute operator in its plain (=, right side relative to the root) and relative (|=) flavour
+	".[0] tag = (. | tag)", ".[1] tag |= \"!!str\"", ".[0] tag |= (. | tag)", ".[0] style = (. | style)", ".[1] style |= \"double\"", ".[0] anchor |= \"x\"", ".[0] anchor = (.[1] | tostring)",
+	".[0] line_comment = (.[1] | tostring)", ".[1] line_comment |= \"c\"", ".[0] head_comment = (.[1] | tostring)", ".[1] head_comment |= \"c\"",
 }
 
 func c18Doc(a, b string) *CandidateNode {
@@ -36,8 +39,8 @@ func VerifC18History() {
 	i1 := verifChoice("e1", len(c18Exprs))
 	i2 := verifChoice("e2", len(c18Exprs))
 	reuse := verifChoice("reuseParsedTree", 2) == 1
-	a1, b1 := verifStrN("a1", 1, "03"), verifStrN("b1", 1, "03")
-	a2, b2 := verifStrN("a2", 1, "03"), verifStrN("b2", 1, "03")
+	a1, b1 := verifStrN("a1", 1, vDigits()), verifStrN("b1", 1, vDigits())
+	a2, b2 := verifStrN("a2", 1, vDigits()), verifStrN("b2", 1, vDigits())
 	label := "e2=" + c18Exprs[i2]
 	tree2 := vParse(c18Exprs[i2])
 	fresh, okFresh := c18Run(tree2, a2, b2)
